@@ -26,6 +26,9 @@ NEGATIVE_MODELS = [
     ("ZUpdate", "ZUpdate_asym.cfg", "SubgradientOptimal"),
     ("Boundaries", "Boundaries_shifted.cfg", "Decomposes"),
     ("ParLoop", "ParLoop_shared.cfg", "AccumulatorIndependentOfSchedule"),
+    ("TiccHeap", "TiccHeap_inplace.cfg", "HInputsUntouched"),            # label setter writing into the shared list
+    ("TiccHeap", "TiccHeap_inplace_alias.cfg", "not_a_step_of_LoopCore"),  # ... and the stopping rule keeping a reference
+    ("MC_TiccLoop", "MC_TiccLoop_badcore.cfg", "not_a_step_of_LoopCore"),  # a wrong refinement mapping is rejected
 ]
 ALL = {"C01", "C03", "C04", "C05", "C06", "C07", "C08", "C09", "C12", "C13", "C14", "C16", "C17", "C19", "C20"}
 
